@@ -134,3 +134,8 @@ MUTANTS += [
  {"id": "paren-starts-ends-with-same-byte", "kind": "break", "edits": [{"patch": "/verif/benign/h5-distinfo-2/patch.diff"}, ("src/distinfo.rs", 'if !(s.starts_with(b"(") && s.ends_with(b")")) {', 'if !(s.starts_with(b"|") && s.ends_with(b"|")) {')], "expect": ["PANIC@distinfo::Line::from_bytes"]},
  {"id": "paren-starts-with-only", "kind": "break", "edits": [{"patch": "/verif/benign/h5-distinfo-2/patch.diff"}, ("src/distinfo.rs", 'if !(s.starts_with(b"(") && s.ends_with(b")")) {', 'if !s.starts_with(b"(") {')], "expect": ["PANIC@distinfo::Line::from_bytes"]},
 ]
+MUTANTS += [
+ {"id": "rebased-position-slice-benign", "kind": "benign", "edits": [{"patch": "/verif/benign/h5-plist-1/patch.diff"}]},
+ {"id": "rebased-position-slice-two-past", "kind": "break", "edits": [{"patch": "/verif/benign/h5-plist-1/patch.diff"}, ("src/plist.rs", ".map(|skip| OsStr::from_bytes(&bytes[idx + skip..]))", ".map(|skip| OsStr::from_bytes(&bytes[idx + skip + 2..]))")], "expect": ["PANIC@plist::PlistEntry::from_bytes"]},
+ {"id": "rebased-position-slice-from-other-search", "kind": "break", "edits": [{"patch": "/verif/benign/h5-plist-1/patch.diff"}, ("src/plist.rs", "            bytes[idx..]\n                .iter()\n                .position(|c| !c.is_ascii_whitespace())", "            bytes[1..]\n                .iter()\n                .position(|c| !c.is_ascii_whitespace())")], "expect": ["PANIC@plist::PlistEntry::from_bytes"]},
+]
